@@ -116,11 +116,11 @@ fn bad_texts(kind: &FieldKind) -> Vec<String> {
 	let over = (P::MAX as u128 + 1).to_string();
 	let mut v: Vec<String> = vec!["".into(), "abc".into(), " ".into(), "\0".into(), "1e".into(), "--1".into(), "１２".into()];
 	match kind {
-		FieldKind::Period => v.extend(["-1".to_string(), over.clone(), "1.5".into(), "0x10".into(), "99999999999999999999999999".into(), "sma-3".into(), "true".into(), "close".into()]),
-		FieldKind::Float => v.extend(["sma-3".to_string(), "true".into(), "close".into(), "1,5".into(), "0.1.2".into()]),
-		FieldKind::Bool => v.extend(["1".to_string(), "yes".into(), "TRUE".into(), "0".into()]),
+		FieldKind::Period => v.extend([" 5".to_string(), "14\n".into(), "\t3 ".into(), "-1".to_string(), over.clone(), "1.5".into(), "0x10".into(), "99999999999999999999999999".into(), "sma-3".into(), "true".into(), "close".into()]),
+		FieldKind::Float => v.extend([" 0.25 ".to_string(), "0.5\n".into(), "sma-3".to_string(), "true".into(), "close".into(), "1,5".into(), "0.1.2".into()]),
+		FieldKind::Bool => v.extend([" true".to_string(), "false ".into(), "1".to_string(), "yes".into(), "TRUE".into(), "0".into()]),
 		FieldKind::Source => v.extend(["1".to_string(), "clos".into(), "sma-3".into(), "hl3".into()]),
-		FieldKind::Ma => v.extend(["sma".to_string(), "sma-x".into(), "sma-".into(), "-3".into(), "3".into(), format!("sma-{over}"), "SMA-3".into(), "lin_reg-3".into(), "kama-3".into(), "close".into()]),
+		FieldKind::Ma => v.extend([" sma-5".to_string(), "ema-7 ".into(), "sma".to_string(), "sma-x".into(), "sma-".into(), "-3".into(), "3".into(), format!("sma-{over}"), "SMA-3".into(), "lin_reg-3".into(), "kama-3".into(), "close".into()]),
 		FieldKind::Other => {}
 	}
 	v
@@ -218,6 +218,19 @@ fn setters(d: &reg::IDesc, ctx: &Ctx, r: &mut Report) {
 			let mut c = base.bclone();
 			let res = guard(|| c.set(name, text.clone()));
 			let case = || json!({"indicator": d.name, "field": name, "text": text});
+			// the dyn twin must answer like the static call on unparsable text as well
+			{
+				let mut dc = base.as_dyn();
+				let rd = guard(|| dc.set(name, text.clone()).is_ok());
+				let same = match (&rd, &res) {
+					(Ok(a), Ok(b)) => *a == b.is_ok() && dc.validate() == c.validate(),
+					(Err(_), Err(_)) => true,
+					_ => false,
+				};
+				if !same {
+					r.violate(&format!("C11|{}|dyn-config|set-differs", d.name), "set through IndicatorConfigDyn behaves differently from the static set (outcome, validity, shape or init)", || json!({"case": case(), "dyn_ok": rd.as_ref().ok(), "static_ok": res.as_ref().ok().map(|x| x.is_ok())}));
+				}
+			}
 			match res {
 				Err(p) => r.violate(&format!("C11|{}|set|{name}|panic:{}", d.name, p.class()), &p.msg, case),
 				Ok(Ok(())) => r.violate(&format!("C11|{}|set|{name}|accepts-unparsable-text", d.name), "set(name, text) accepted text that does not parse as the parameter's type", || json!({"case": case(), "after": c.ser().ok()})),
